@@ -27,6 +27,8 @@ OT = "QtLogger::OwnThreadHandler"
 
 def run(ck):
     F = ck.facts
+    from rules.oth import resolve_roles
+    ck.notes.append("OwnThreadHandler fields by role: %s" % resolve_roles(F))
     ck.rule("C02-O1", "every call in Logger::messageHandler/processMessage that can reach a pipeline operation (running the handlers or flushing the sinks) is made with Logger::m_mutex held (one acquisition around the whole run)")
     ck.rule("C02-O2", "OwnThreadHandler<B>::process holds its own m_mutex at the synchronous B::process call and at postEvent, in every instantiation; "
                       "resetOwnThread switches back to synchronous mode (m_worker = null) only after quit() and wait(), so caller-side and worker-side runs never overlap")
